@@ -89,6 +89,41 @@ void vp_log_hex(const uint8_t *p, size_t n) {
     if (log_len > (1u << 15)) vp_log_flush();
 }
 
+/* A dying child must not take its buffered events with it. */
+#if defined(__SANITIZE_ADDRESS__) || defined(__SANITIZE_THREAD__) || defined(VP_MSAN)
+#define VP_HAVE_SAN 1
+#elif defined(__has_feature)
+#if __has_feature(address_sanitizer) || __has_feature(thread_sanitizer)
+#define VP_HAVE_SAN 1
+#endif
+#endif
+#ifdef VP_HAVE_SAN
+void __sanitizer_set_death_callback(void (*callback)(void));
+#endif
+#if defined(__SANITIZE_ADDRESS__)
+#define VP_ASAN 1
+#elif defined(__has_feature)
+#if __has_feature(address_sanitizer)
+#define VP_ASAN 1
+#endif
+#endif
+#include <signal.h>
+static void crash_flush_cb(void) { vp_log_flush(); }
+static void crash_sig(int sig) {
+    vp_log_flush();
+    signal(sig, SIG_DFL);
+    raise(sig);
+}
+void vp_install_crash_flush(void) {
+#ifdef VP_HAVE_SAN
+    __sanitizer_set_death_callback(crash_flush_cb);
+#endif
+#if !defined(VP_ASAN) && !defined(VP_MSAN)
+    signal(SIGSEGV, crash_sig); signal(SIGBUS, crash_sig); signal(SIGFPE, crash_sig);
+#endif
+    signal(SIGABRT, crash_sig); signal(SIGXCPU, crash_sig);
+}
+
 /* ------------------------------------------------------------------ prng */
 
 uint32_t vp_prng(uint32_t *s) {
